@@ -24,7 +24,7 @@ COMPONENTS = {"real": ["smpl_extract.actions (cue path), cuesheet, cdda/image, u
                        "stdout captured", "output in a /dev/shm sandbox behind an audit hook"]}
 ASSUMPTIONS = ["titles are safe unique words (hostile titles are C06's)", "all tracks AUDIO, first indices strictly increasing and inside the bin",
                "what simulation adds over plain generation here is only the torn-tail lengths, the block-size knob and the seam observation"]
-EXPECTED_PROBES = ["minutes_gt_0", "seconds_gt_0", "tail_not_multiple_of_4", "tail_not_multiple_of_2352", "multi_index", "untitled", "tracks_ge_3", "bin_in_subdirectory", "keywords_not_upper_case", "dotted_titles", "knob_not_default",
+EXPECTED_PROBES = ["minutes_gt_0", "seconds_gt_0", "tail_not_multiple_of_4", "tail_not_multiple_of_2352", "multi_index", "untitled", "tracks_ge_3", "bin_in_subdirectory", "keywords_not_upper_case", "dotted_titles", "blank_lines_between_entries", "knob_not_default",
                    "empty_last_track", "cli_crosscheck", "first_track_not_at_zero", "exported_twice", "keyword_like_title", "lr_titles", "cue_no_final_newline", "cue_crlf", "cue_larger_than_8k"]
 SHRINK = {"max_attempts": 300, "max_seconds": 40.0, "simple_values": {"block": [4096]}}
 KNOBS = [4, 8, 64, 510, 4096, 4096, 4096, 8192, 65536]
@@ -86,7 +86,8 @@ def gen_cdda_model(rng: random.Random, *, titles: str = "safe") -> dict:
 def gen(rng: random.Random, tier: str, index: int) -> dict:
     return {"model": gen_cdda_model(rng), "block": rng.choice(KNOBS), "cli": index % CLI_EVERY == 5,
             # how the editor that wrote the cue sheet ended its lines
-            "cue_text_style": rng.choice([None, None, None, "no_final_newline", "no_final_newline", "crlf", "crlf_no_final_newline"])}
+            "cue_text_style": rng.choice([None, None, None, "no_final_newline", "no_final_newline", "crlf", "crlf_no_final_newline"]),
+            "inner_blank": [rng.choice(["   ", "\t", " \t ", ""]), rng.choice([1, 1, 2, 3])] if rng.random() < 0.2 else None}
 
 
 def check_tracks(res: RunResult, prop: str, model: dict, er: tool.ExportResult, ctx: str = "") -> None:
@@ -141,6 +142,18 @@ def run(sc: dict) -> RunResult:
         text = text.rstrip("\n").replace("\n", "\r\n")
     if style:
         res.probes["cue_" + style] += 1
+    if sc.get("inner_blank"):
+        # editors leave lines that hold only blanks or a tab between the entries
+        blank, every = sc["inner_blank"]
+        nl = "\r\n" if "\r\n" in text else "\n"
+        parts = text.split(nl)
+        out = []
+        for j, ln in enumerate(parts):
+            out.append(ln)
+            if ln.strip() and j % every == 0 and j < len(parts) - 1:
+                out.append(blank)
+        text = nl.join(out)
+        res.probes["blank_lines_between_entries"] += 1
     cue = text.encode("ascii")
     n = model["bin_len"]
     nontrivial = len(model["tracks"]) >= 2
